@@ -229,7 +229,38 @@ pub fn run_c13(tier: Tier) -> i32 {
         Outcome::Pass => {}
         other => return report.finish(other),
     }
-    let cfg = RunCfg { structure: true, xcheck_validity: true, ..Default::default() };
+    // "a build yields a forest satisfying C01 for every thread-pool size": a fault-free build on ordinary data that
+    // fails or panics in a pool is a result here, not a discarded case
+    let cfg = RunCfg { structure: true, xcheck_validity: true, build_must_succeed: true, ..Default::default() };
+    let cfg_large = cfg.clone();
+    let g_large = GenCfg {
+        first_ops: (520, 900),
+        later_ops: (50, 300),
+        id_pool: (700, 1200),
+        threads: vec![4, 8, 16, 2],
+        n_trees: vec![(1, vec![Some(2), Some(8), Some(12)])],
+        split_after: vec![(2, vec![Some(2), Some(3)]), (1, vec![None])],
+        rounds: (1, 3),
+        ..pool_gen()
+    };
+    // nodes of several hundred items split inside pools of 2-16 threads
+    let out = run_generated(
+        "C13-pools-large",
+        env_seed(),
+        tier.pick(64, 1500),
+        || crate::gen::history(&g_large),
+        render_history,
+        move |spec: &HistorySpec, st: &mut CaseStats| {
+            let r = exec_history(spec, &cfg_large, st);
+            st.nontrivial = st.get("pool_gt1") > 0 && st.get("builds_ok") >= 1;
+            r
+        },
+        &mut report.acc,
+    );
+    match out {
+        Outcome::Pass => {}
+        other => return report.finish(other),
+    }
     let g = pool_gen();
     let out = run_generated(
         "C13-pools",
@@ -266,12 +297,12 @@ pub fn replay(engine: &str, case: &serde_json::Value) -> Option<Result<(), Fail>
                 None => Ok(()),
             })
         }
-        "C13-pools" => {
+        "C13-pools" | "C13-pools-large" => {
             let spec: HistorySpec = match serde_json::from_value(case.clone()) {
                 Ok(c) => c,
                 Err(e) => return Some(Err(Fail::Infra(format!("bad case: {e}")))),
             };
-            let cfg = RunCfg { structure: true, ..Default::default() };
+            let cfg = RunCfg { structure: true, build_must_succeed: true, ..Default::default() };
             let mut last = Ok(());
             for _ in 0..50 {
                 let mut st = CaseStats::default();
